@@ -23,6 +23,29 @@ import pandas as pd
 
 from ._stateful_util import Reporter, WorkResult, chunked, code, merge, pmap
 
+
+import types
+import formulaic.transforms as _ft
+from formulaic.transforms.patsy_compat import standardize as _standardize
+_tf = types.SimpleNamespace(center=_ft.center, scale=_ft.scale, poly=_ft.poly, bs=_ft.basis_spline,
+                            basis_spline=_ft.basis_spline, cr=_ft.natural_cubic_spline, cs=_ft.natural_cubic_spline,
+                            cc=_ft.cyclic_cubic_spline, standardize=_standardize)
+# the library's transforms reachable through attribute paths: a plain namespace, a nested one, the module itself
+CTX = {"tf": _tf, "ns": types.SimpleNamespace(inner=_tf), "ft": _ft}
+
+
+def respell(template, prefix):
+    """the same template with every stateful transform reached through an attribute path of the context"""
+    import re
+
+    names = {"center": "center", "scale": "scale", "poly": "poly", "bs": "bs", "cr": "cr", "cs": "cs", "cc": "cc",
+             "standardize": "standardize"}
+    if prefix == "ft.":  # the module has no short aliases
+        names = {"center": "center", "scale": "scale", "poly": "poly", "bs": "basis_spline", "cr": "natural_cubic_spline",
+                 "cs": "natural_cubic_spline", "cc": "cyclic_cubic_spline"}
+    return re.sub(r"(?<![A-Za-z0-9_.])(" + "|".join(names) + r")\(", lambda m: prefix + names[m.group(1)] + "(", template)
+
+
 # ------------------------------------------------------------------------------------------
 # formula templates (columns: x, w real; z positive; a object{p,q,r}; g category{u,v}; k category{1,2,3})
 # ------------------------------------------------------------------------------------------
@@ -73,9 +96,16 @@ BOUNDED_EXTRAPOLATION = [
     "cc(x, df=3, lower_bound=-1.5, upper_bound=1.5, extrapolation='zero')",
     "bs(x, df=3, lower_bound=-1.5, upper_bound=1.5, extrapolation='clip') + cr(w, df=3, lower_bound=-0.5, upper_bound=0.5, extrapolation='na')",
 ]
+# the spelling of the callable as a dimension: a sample of the templates above with the transforms reached through
+# `tf.<name>`, `ns.inner.<name>` and the module `ft.<name>` (all supplied through the context)
+_SAMPLE = (SCALING[:6] + POLY + BS[:5] + CUBIC[:5] + ["a:scale(x)", "a:bs(x, df=3)", "scale(x):center(z)", "g:cr(x, df=3)",
+                                                   "scale(x) + scale(x):a", "center(bs(x, df=3))", "scale(cr(x, df=3))",
+                                                   "poly(x, 2) + poly(x, 3)"] + BOUNDED_EXTRAPOLATION[:2] + BOUNDED_EXTRAPOLATION[6:8])
+NAMESPACED = [respell(t, ("tf.", "ns.inner.", "ft.")[i % 3]) for i, t in enumerate(_SAMPLE)] + \
+             ["tf.scale(x) + scale(x) + ns.inner.scale(x)", "ft.center(tf.bs(x, df=3)) + center(z)"]
 TWO_SIDED = ["z ~ a + scale(x)", "center(z) ~ bs(x, df=3) + g", "scale(w) + center(z) ~ C(a, contr.sum):x"]
 FAMILIES = {"stateless": STATELESS, "scaling": SCALING, "poly": POLY, "bs": BS, "cubic": CUBIC, "categorical": CATEG,
-            "interaction": INTERACT, "quoted-or-shared-state": QUOTED_AND_SHARED, "literal-scale": LITERAL_SCALE, "bounded-extrapolation": BOUNDED_EXTRAPOLATION, "two-sided": TWO_SIDED}
+            "interaction": INTERACT, "quoted-or-shared-state": QUOTED_AND_SHARED, "literal-scale": LITERAL_SCALE, "bounded-extrapolation": BOUNDED_EXTRAPOLATION, "namespaced-callable": NAMESPACED, "two-sided": TWO_SIDED}
 SINGLE_TERMS = STATELESS + SCALING + POLY + BS + CUBIC + CATEG + BOUNDED_EXTRAPOLATION[:4] + BOUNDED_EXTRAPOLATION[6:10]  # building blocks of the random sums
 
 
@@ -150,6 +180,15 @@ import pickle, warnings
 import numpy as np, pandas as pd
 from formulaic import model_matrix
 
+import types
+import formulaic.transforms as _ft
+from formulaic.transforms.patsy_compat import standardize as _standardize
+_tf = types.SimpleNamespace(center=_ft.center, scale=_ft.scale, poly=_ft.poly, bs=_ft.basis_spline,
+                            basis_spline=_ft.basis_spline, cr=_ft.natural_cubic_spline, cs=_ft.natural_cubic_spline,
+                            cc=_ft.cyclic_cubic_spline, standardize=_standardize)
+# the library's transforms reachable through attribute paths: a plain namespace, a nested one, the module itself
+CTX = {{"tf": _tf, "ns": types.SimpleNamespace(inner=_tf), "ft": _ft}}
+
 def frame(cols, idx=None, keep_index=False, prune=False):
     out = {{}}
     for name, (values, dtype) in cols.items():
@@ -178,19 +217,19 @@ def same_rows(T, N):
 warnings.simplefilter("ignore")
 cols = {cols!r}
 train = frame(cols)
-mm = model_matrix({formula!r}, train, output={output!r}, context={{}})
+mm = model_matrix({formula!r}, train, output={output!r}, context=CTX)
 spec = mm.model_spec
 names = [list(p.model_spec.column_names) for p in parts(mm)]
 T = [dense(p) for p in parts(mm)]
 # training rows that the missing-data policy kept (e.g. extrapolation='na' turns out-of-bounds rows into nulls)
-pos = {{p: i for i, p in enumerate(parts(model_matrix({formula!r}, train, output="pandas", context={{}}))[0].index)}}
+pos = {{p: i for i, p in enumerate(parts(model_matrix({formula!r}, train, output="pandas", context=CTX))[0].index)}}
 if {pickled!r}:
     spec = pickle.loads(pickle.dumps(spec))
 history = {history!r}          # follow-ups applied one after the other on the same spec object
 for step, (kind, idx, keep_index, prune) in enumerate(history):
     new = frame(cols, idx, keep_index, prune)
-    m2 = (model_matrix(spec, new, context={{}}) if {via!r} == "model_matrix" else
-          model_matrix(mm, new, context={{}}) if {via!r} == "model_matrix(mm)" else spec.get_model_matrix(new))
+    m2 = (model_matrix(spec, new, context=CTX) if {via!r} == "model_matrix" else
+          model_matrix(mm, new, context=CTX) if {via!r} == "model_matrix(mm)" else spec.get_model_matrix(new, context=CTX))
     if step != len(history) - 1:
         continue               # only the last follow-up of the history is asserted here
     got_names = [list(p.model_spec.column_names) for p in parts(m2)]
@@ -211,6 +250,15 @@ import pickle, warnings
 import numpy as np, pandas as pd
 from formulaic import model_matrix
 
+import types
+import formulaic.transforms as _ft
+from formulaic.transforms.patsy_compat import standardize as _standardize
+_tf = types.SimpleNamespace(center=_ft.center, scale=_ft.scale, poly=_ft.poly, bs=_ft.basis_spline,
+                            basis_spline=_ft.basis_spline, cr=_ft.natural_cubic_spline, cs=_ft.natural_cubic_spline,
+                            cc=_ft.cyclic_cubic_spline, standardize=_standardize)
+# the library's transforms reachable through attribute paths: a plain namespace, a nested one, the module itself
+CTX = {{"tf": _tf, "ns": types.SimpleNamespace(inner=_tf), "ft": _ft}}
+
 def frame(cols, idx=None):
     out = {{}}
     for name, (values, dtype) in cols.items():
@@ -230,14 +278,14 @@ def same_rows(T, N):
 
 warnings.simplefilter("ignore")
 cols, fresh = {cols!r}, {fresh!r}
-mm = model_matrix({formula!r}, frame(cols), output={output!r}, context={{}})
+mm = model_matrix({formula!r}, frame(cols), output={output!r}, context=CTX)
 spec = pickle.loads(pickle.dumps(mm.model_spec)) if {pickled!r} else mm.model_spec
 names = [list(p.model_spec.column_names) for p in parts(mm)]
-full = spec.get_model_matrix(frame(fresh))       # new rows from the training domain, all at once
+full = spec.get_model_matrix(frame(fresh), context=CTX)       # new rows from the training domain, all at once
 assert [list(p.model_spec.column_names) for p in parts(full)] == names, "columns differ on new data"
-posf = {{p: i for i, p in enumerate(parts(spec.get_model_matrix(frame(fresh), output="pandas"))[0].index)}}  # rows kept
+posf = {{p: i for i, p in enumerate(parts(spec.get_model_matrix(frame(fresh), context=CTX, output="pandas"))[0].index)}}  # rows kept
 idx = {idx!r}
-part = spec.get_model_matrix(frame(fresh, idx))  # a selection of those rows: each row must come out the same
+part = spec.get_model_matrix(frame(fresh, idx), context=CTX)  # a selection of those rows: each row must come out the same
 sel = [posf[p] for p in idx if p in posf]
 for f, p in zip(parts(full), parts(part)):
     assert same_rows(dense(f)[sel], dense(p)), ("rows of the selection differ from the rows of the whole frame", dense(f)[sel].shape, dense(p).shape)
@@ -286,7 +334,7 @@ def _worker(jobs):
         with warnings.catch_warnings():
             warnings.simplefilter("ignore")
             try:
-                mm = model_matrix(formula, train, output=output, context={})
+                mm = model_matrix(formula, train, output=output, context=CTX)
             except Exception as e:  # noqa: BLE001 - no spec, nothing to replay: outside the property
                 res.case(("train-failed", formula, output), nontrivial=False)
                 res.stats[("train-failed", f"{formula} [{type(e).__name__}]")] += 1
@@ -301,7 +349,7 @@ def _worker(jobs):
                 # the missing-data policy dropped training rows (e.g. extrapolation='na'): a follow-up row taken from a
                 # dropped training row must be dropped again, all others must equal their training row
                 try:
-                    kept = list(_parts(model_matrix(formula, train, output="pandas", context={}))[0].index)
+                    kept = list(_parts(model_matrix(formula, train, output="pandas", context=CTX))[0].index)
                     pos = {p: i for i, p in enumerate(kept)}
                 except Exception:  # noqa: BLE001
                     res.stats[("train-failed", f"{formula} [kept-rows]")] += 1
@@ -350,9 +398,9 @@ def _worker(jobs):
                                                                 history=history[: step + 1], via=via, clause=clause))}
 
                         try:
-                            m2 = (model_matrix(spec, new, context={}) if via == "model_matrix"
-                                  else model_matrix(mm, new, context={}) if via == "model_matrix(mm)"
-                                  else spec.get_model_matrix(new))
+                            m2 = (model_matrix(spec, new, context=CTX) if via == "model_matrix"
+                                  else model_matrix(mm, new, context=CTX) if via == "model_matrix(mm)"
+                                  else spec.get_model_matrix(new, context=CTX))
                         except Exception as e:  # noqa: BLE001 - outcome to be judged: replay on training rows may not fail
                             res.fail(rows_clause, f"raises-{type(e).__name__}:{kind_cls}:{fam}:{route_cls}", wit(rows_clause),
                                      f"{kind} via {route}: {type(e).__name__}: {e}"[:800])
@@ -391,7 +439,7 @@ def _worker(jobs):
                 selections = [sorted(rng.sample(range(m), rng.randint(1, m - 1))), [rng.randrange(m) for _ in range(m + 2)],
                               [rng.randrange(m)]]
                 try:
-                    full = spec.get_model_matrix(frame(fresh))
+                    full = spec.get_model_matrix(frame(fresh), context=CTX)
                 except Exception as e:  # noqa: BLE001
                     res.case(("fresh", formula, output, seed, pickled), True)
                     res.fail("C04.replay.row-local", f"raises-{type(e).__name__}:{fam}",
@@ -404,7 +452,7 @@ def _worker(jobs):
                 posf = {p: p for p in range(m)}
                 if any(f.shape[0] != m for f in F):
                     try:
-                        posf = {p: i for i, p in enumerate(_parts(spec.get_model_matrix(frame(fresh), output="pandas"))[0].index)}
+                        posf = {p: i for i, p in enumerate(_parts(spec.get_model_matrix(frame(fresh), context=CTX, output="pandas"))[0].index)}
                     except Exception:  # noqa: BLE001
                         res.stats[("fresh-kept-rows-unavailable", formula)] += 1
                         continue
@@ -415,7 +463,7 @@ def _worker(jobs):
                          "code": code(WITNESS_FRESH.format(cols=cols, fresh=fresh, formula=formula, output=output,
                                                            pickled=pickled, idx=sel))}
                     try:
-                        part = spec.get_model_matrix(frame(fresh, sel))
+                        part = spec.get_model_matrix(frame(fresh, sel), context=CTX)
                     except Exception as e:  # noqa: BLE001
                         res.fail("C04.replay.row-local", f"raises-{type(e).__name__}:{fam}", w,
                                  f"selection {sel} of new rows: {type(e).__name__}: {e}"[:800])
@@ -451,6 +499,8 @@ def _jobs(rng, thorough):
         terms = rng.sample(SINGLE_TERMS + INTERACT, rng.randint(2, 3))
         terms = [t.replace(" - 1", "") for t in terms]
         # any term may carry a numeric-literal multiplier
+        terms = [respell(t, rng.choice(["tf.", "ns.inner.", "ft."])) if rng.random() < 0.2 and "standardize" not in t else t
+                 for t in terms]
         terms = [(rng.choice(["2", "3", "0.5", "2.5", "10"]) + ":" + t) if rng.random() < 0.3 and not t.startswith("(") else t
                  for t in terms]
         formula = " + ".join(terms) + rng.choice(["", "", " - 1", " + 0"])
